@@ -35,6 +35,8 @@ R.contract(f'{FU}.cancel', self_type='Fut', params={},
     ensures=["forall('Fut', lambda f: f._state == (FutureState.CANCELLED if f == self else old(f._state)))"],
     frame=['Fut._state'])
 R.contract(f'{FU}.result', self_type='Fut', params={}, returns='Res',
+    requires=[C("implies((self._state == FutureState.FINISHED) and isnone(self._ex), not isnone(self._result))",
+                'A-future-rep: a future that finished without an exception holds a TaskResult (set_result is the only writer of that state and stores its argument)', serves=('A-future-rep',))],
     ensures=["old(self._state) == FutureState.FINISHED", "isnone(self._ex)", "result == unopt(self._result)"],
     raises={'BaseException': [C("((self._state != FutureState.FINISHED) and exc_is(exc, 'FutureStateError')) or ((self._state == FutureState.FINISHED) and (not isnone(self._ex)) and (exc == unopt(self._ex)))",
                                 'raises the stored exception of a finished future, or FutureStateError when not finished')]},
